@@ -9,14 +9,16 @@ META = dict(
     text="A link is encrypted only with a key supplied for it.",
     level_note="Coq model of link_layer<> (coq/LL/LLModel.v, encryption part = the code after the repair fix/C28-start-enc-rsp-state) tied to the "
                "real link_layer<> with a toy key store, an encrypting scripted radio and a GATT server with a requires_encryption characteristic. "
-               "Proved for operation / control PDU / ATT histories of any length (invariant, induction over the history): is_encrypted implies that "
-               "the last LL_ENC_REQ of this connection found a key, LL_START_ENC_REQ was committed for it afterwards and no pause, disconnect or "
-               "new connection happened since; the specification monitor's decision clauses (encrypted_without_key, "
-               "encrypted_without_start_enc_req, LL_START_ENC_REQ for an unknown key / without request, still encrypted after disconnect or at "
-               "the end of the link) accept every model trace. The monitor's on-air clauses (reject on air for an unknown key, protected value on "
-               "air only if the link was encrypted when it was queued, LL_PAUSE_ENC_RSP on an unencrypted link) are executable and judged on "
-               "every implementation trace, their acceptance of all model traces is stated (C28_monitor_accepts_full) but not proved. "
-               "Cryptography itself (session key, MIC) is outside: the radio's encryption is a switch.",
+               "Proved for operation / control PDU / ATT histories of any length (two invariants, induction over the history): (1) the complete "
+               "specification monitor accepts every model trace (C28_monitor_accepts_all): is_encrypted / transmit encryption only for a pending "
+               "LL_ENC_REQ of this connection whose key the key store supplied, after LL_START_ENC_REQ was committed for it and with no pause, "
+               "disconnect, end of link or new connection since; LL_START_ENC_REQ only for a known key; an unknown key is answered with a reject on "
+               "air in the next connection event; unencrypted after disconnect() and at the end of the link; LL_PAUSE_ENC_RSP on air only on an "
+               "unencrypted link; the protected value on air only if the link was encrypted in the connection event that queued it; "
+               "(2) is_encrypted implies the specification's 'encrypted' (C28_encrypted_only_with_key). Hypothesis of both: no failing assert in the "
+               "history (crash freedom is C22's). Before the repair the statement was false (witnesses corpus/C28; bin/check C28 on the unrepaired "
+               "tree exits 1 with them). Outside: cryptography itself (session key, MIC: the radio's encryption is a switch; a real radio drops plain "
+               "PDUs while reception is encrypted), which keys a security manager offers (C33), the GATT server's own check (C05; one read probe here).",
     design_ref="DESIGN.md section 6 C28, docs/C28.md, docs/LL_MODEL.md",
     technique="Coq state-machine model + invariant proof over unbounded histories; executable spec monitor on the implementation's traces; "
               "exhaustive sequences over {LL_ENC_REQ known / unknown key, LL_START_ENC_RSP, LL_PAUSE_ENC_REQ, LL_PAUSE_ENC_RSP, disconnect + "
